@@ -73,6 +73,13 @@ func (c *stubClient) CheckHeaderAndUpdateState(sdk.Context, codec.BinaryCodec, s
 
 func (c *stubClient) verify(kind int, h exported.Height, proof []byte, src, dst string, seq uint64, value []byte) error {
 	ok := vp.Bool("lc.ok")
+	// LC is a function of (client, height, key, value): equal questions get equal answers
+	for _, prev := range c.w.calls {
+		same := vp.And(prev.kind == kind, prev.chain == c.chain, prev.src == src, prev.dst == dst, prev.seq == seq,
+			prev.height.GetRevisionNumber() == h.GetRevisionNumber(), prev.height.GetRevisionHeight() == h.GetRevisionHeight(),
+			vp.BytesEq(prev.value, value), vp.BytesEq(prev.proof, proof))
+		vp.Assume(vp.Implies(same, ok == prev.ok))
+	}
 	c.w.calls = append(c.w.calls, verifyCall{kind: kind, chain: c.chain, height: h, src: src, dst: dst, seq: seq, value: value, proof: proof, ok: ok})
 	if ok {
 		return nil
@@ -130,12 +137,11 @@ func optName(n string) string {
 }
 
 func hasClient(w *world, chain string) bool {
+	r := false
 	for _, c := range w.clients {
-		if c == chain {
-			return true
-		}
+		r = vp.Or(r, c == chain)
 	}
-	return false
+	return r
 }
 
 // newWorld: own chain name symbolic, up to three registered clients with symbolic names.
@@ -169,14 +175,31 @@ type ctxT = sdk.Context
 // decimal renders n in base 10 (independent of the code under test).
 func decimal(n uint64) string { return strconv.FormatUint(n, 10) }
 
-func sameBytes(a, b []byte) bool {
-	if len(a) != len(b) {
-		return false
-	}
-	for i := range a {
-		if a[i] != b[i] {
-			return false
+func sameBytes(a, b []byte) bool { return vp.BytesEq(a, b) }
+
+// onlyWrote: every write to the tibc store since mark targets one of the allowed keys.
+func onlyWrote(ctx ctxT, mark int, allowed ...[]byte) bool {
+	n := vp.StoreMark(ctx, "tibc")
+	ok := true
+	for i := mark; i < n; i++ {
+		key := vp.WrittenKey(ctx, "tibc", i)
+		hit := false
+		for _, a := range allowed {
+			hit = vp.Or(hit, vp.BytesEq(key, a))
 		}
+		ok = vp.And(ok, hit)
 	}
-	return true
+	return ok
+}
+
+// clientBE decodes an 8-byte big-endian counter (0 if absent / malformed).
+func clientBE(bz []byte) uint64 {
+	if len(bz) != 8 {
+		return 0
+	}
+	var n uint64
+	for _, b := range bz {
+		n = n<<8 | uint64(b)
+	}
+	return n
 }
